@@ -1,7 +1,7 @@
 (* C18 — Bipartite matching is maximum and the derived vertex cover is minimum.
    Only statements, closed by [exact]; proofs live in Proofs/. *)
-From Coq Require Import ZArith List Bool Lia.
-From PT Require Import Model.Bipartite Proofs.BipartiteCert.
+From Coq Require Import ZArith List Bool Lia Sorted.
+From PT Require Import Model.Bipartite Proofs.BipartiteCert Proofs.BipartiteGraphSem Proofs.BipartiteHK Proofs.BipartiteKonig Proofs.BipartiteBFS Proofs.BipartiteMax Proofs.BipartiteTerm Proofs.BipartiteTotal.
 Import ListNotations.
 Open Scope Z_scope.
 
@@ -25,10 +25,170 @@ Theorem C18_certificate_optimal : forall g m uc vc,
 Proof. exact certificate_optimal. Qed.
 Print Assumptions C18_certificate_optimal.
 
-(* Non-vacuity: the model's own output on a concrete graph meets the hypotheses. *)
+(* BipartiteGraph.__init__: for an in-range edge list (the constructor's own asserts) the graph's edge relation is
+   exactly membership in the list — duplicate edges collapse (adjacency lists are duplicate free) and adj_v is the
+   transpose of adj_u. All graphs, all sizes. *)
+Theorem C18_mk_bg_edges : forall n_u n_v edges,
+  (forall e, In e edges -> 0 <= fst e < Z.of_nat n_u /\ 0 <= snd e < Z.of_nat n_v) ->
+  let g := mk_bg n_u n_v edges in
+  nu g = n_u /\ nv g = n_v /\
+  (forall u v, has_edge g u v = true <-> In (u, v) edges) /\
+  (forall u, NoDup (adj_u g u)) /\ (forall v, NoDup (adj_v g v)) /\
+  (forall u v, 0 <= u < Z.of_nat n_u -> 0 <= v < Z.of_nat n_v -> (In u (adj_v g v) <-> In v (adj_u g u))).
+Proof.
+  exact (fun n_u n_v edges H =>
+    conj (mk_bg_nu n_u n_v edges H) (conj (mk_bg_nv n_u n_v edges H) (conj (mk_bg_edges n_u n_v edges H)
+    (conj (mk_bg_nodup_u n_u n_v edges H) (conj (mk_bg_nodup_v n_u n_v edges H) (mk_bg_transpose n_u n_v edges H)))))).
+Qed.
+Print Assumptions C18_mk_bg_edges.
+
+(* HopcroftKarp.__call__: whenever the model returns (fuel not exhausted), the result is a matching of the graph
+   built from an in-range edge list: every pair is an existing edge, no two pairs share a U- or a V-vertex. *)
+Theorem C18_hk_matching_valid : forall n_u n_v edges m,
+  (forall e, In e edges -> 0 <= fst e < Z.of_nat n_u /\ 0 <= snd e < Z.of_nat n_v) ->
+  hopcroft_karp (mk_bg n_u n_v edges) = Some m -> Matching (mk_bg n_u n_v edges) m.
+Proof. exact hk_matching_valid_mk. Qed.
+Print Assumptions C18_hk_matching_valid.
+
+(* the same for any graph record whose adj_u entries are V-vertices *)
+Theorem C18_hk_matching_valid_gen : forall g m,
+  (forall u v, In v (adj_u g u) -> 0 <= v < Z.of_nat (nv g)) ->
+  hopcroft_karp g = Some m -> Matching g m.
+Proof. exact (fun g m H => hk_matching_valid g H m). Qed.
+Print Assumptions C18_hk_matching_valid_gen.
+
+(* Completeness of Hopcroft-Karp (partial-correctness form): whenever HopcroftKarp() returns, its result is a
+   MAXIMUM matching — no call to minimum_vertex_cover needed.  ([outer] returns only after a BFS that did not reach
+   NIL; the BFS-finite vertices then yield a vertex cover no larger than the matching.) *)
+Theorem C18_hk_maximum : forall n_u n_v edges m,
+  (forall e, In e edges -> 0 <= fst e < Z.of_nat n_u /\ 0 <= snd e < Z.of_nat n_v) ->
+  let g := mk_bg n_u n_v edges in
+  hopcroft_karp g = Some m ->
+  Matching g m /\ forall m', Matching g m' -> (length m' <= length m)%nat.
+Proof. exact hk_maximum_mk. Qed.
+Print Assumptions C18_hk_maximum.
+
+(* The breadth-first search never exhausts its fuel of nu+2 dequeues (for any state satisfying the matching
+   invariant, in particular every state reached by the algorithm). *)
+Theorem C18_bfs_terminates : forall g s,
+  (forall u v, In v (adj_u g u) -> 0 <= v < Z.of_nat (nv g)) ->
+  Inv g s -> length (dist s) = (nu g + 1)%nat -> exists s1 b, bfs g s = Some (s1, b).
+Proof.
+  exact (fun g s Ha Hi Hl => match bfs_ok g Ha s Hi Hl with
+                             | ex_intro _ s1 (ex_intro _ b (conj H _)) => ex_intro _ s1 (ex_intro _ b H) end).
+Qed.
+Print Assumptions C18_bfs_terminates.
+
+(* minimum_vertex_cover: whenever the model returns, the two lists cover every edge, are in range,
+   strictly increasing (sorted, duplicate free). *)
+Theorem C18_konig_cover_valid : forall g uc vc,
+  (forall u v, In v (adj_u g u) -> 0 <= v < Z.of_nat (nv g)) ->
+  min_vertex_cover g = Some (uc, vc) ->
+  Cover g uc vc /\
+  (forall u, In u uc -> 0 <= u < Z.of_nat (nu g)) /\ (forall v, In v vc -> 0 <= v < Z.of_nat (nv g)) /\
+  StronglySorted Z.lt uc /\ StronglySorted Z.lt vc /\ NoDup uc /\ NoDup vc /\
+  sortedb uc = true /\ sortedb vc = true.
+Proof. exact konig_cover_valid. Qed.
+Print Assumptions C18_konig_cover_valid.
+
+(* The Koenig construction is valid for ANY pair list with distinct first components (so for any matching),
+   independently of Hopcroft-Karp. *)
+Theorem C18_cover_of_any_matching : forall g m uc vc,
+  (forall u v, In v (adj_u g u) -> 0 <= v < Z.of_nat (nv g)) -> NoDup (map fst m) ->
+  cover_of g m = Some (uc, vc) ->
+  Cover g uc vc /\
+  (forall u, In u uc -> 0 <= u < Z.of_nat (nu g)) /\ (forall v, In v vc -> 0 <= v < Z.of_nat (nv g)) /\
+  StronglySorted Z.lt uc /\ StronglySorted Z.lt vc.
+Proof. exact (fun g m uc vc Ha Hm => cover_of_valid g Ha m Hm uc vc). Qed.
+Print Assumptions C18_cover_of_any_matching.
+
+(* Main result (partial correctness of the whole routine, all graphs): whenever minimum_vertex_cover returns on a
+   graph built from an in-range edge list — i.e. no fuel ran out and the routine's own assertion
+   |cover| = |matching| passed — the Hopcroft-Karp result is a MAXIMUM matching and the returned cover a MINIMUM
+   vertex cover, of equal size (Koenig). *)
+Theorem C18_mvc_certified : forall n_u n_v edges uc vc,
+  (forall e, In e edges -> 0 <= fst e < Z.of_nat n_u /\ 0 <= snd e < Z.of_nat n_v) ->
+  let g := mk_bg n_u n_v edges in
+  min_vertex_cover g = Some (uc, vc) ->
+  exists m, hopcroft_karp g = Some m /\ Matching g m /\ Cover g uc vc /\ cover_wf g uc vc /\
+            (length uc + length vc = length m)%nat /\
+            (forall m', Matching g m' -> (length m' <= length m)%nat) /\
+            (forall uc' vc', Cover g uc' vc' -> (length uc + length vc <= length uc' + length vc')%nat).
+Proof. exact mvc_certified_mk. Qed.
+Print Assumptions C18_mvc_certified.
+
+Theorem C18_mvc_certified_gen : forall g uc vc,
+  (forall u v, In v (adj_u g u) -> 0 <= v < Z.of_nat (nv g)) ->
+  min_vertex_cover g = Some (uc, vc) ->
+  exists m, hopcroft_karp g = Some m /\ Matching g m /\ Cover g uc vc /\ cover_wf g uc vc /\
+            (length uc + length vc = length m)%nat /\
+            (forall m', Matching g m' -> (length m' <= length m)%nat) /\
+            (forall uc' vc', Cover g uc' vc' -> (length uc + length vc <= length uc' + length vc')%nat).
+Proof. exact mvc_certified. Qed.
+Print Assumptions C18_mvc_certified_gen.
+
+(* HopcroftKarp() terminates on every graph (none of the fuels of outer / bfs_loop / dfs is ever exhausted: the model
+   never returns None) and returns a maximum matching. *)
+Theorem C18_hk_total_maximum : forall n_u n_v edges,
+  (forall e, In e edges -> 0 <= fst e < Z.of_nat n_u /\ 0 <= snd e < Z.of_nat n_v) ->
+  let g := mk_bg n_u n_v edges in
+  exists m, hopcroft_karp g = Some m /\ Matching g m /\ forall m', Matching g m' -> (length m' <= length m)%nat.
+Proof. exact hk_total_maximum_mk. Qed.
+Print Assumptions C18_hk_total_maximum.
+
+(* C18, complete statement (total correctness, all graphs, including no edges and duplicate edges):
+   for every in-range edge list both routines return (no fuel of outer / bfs_loop / dfs / explore is exhausted and
+   the size assertion |cover| = |matching| of minimum_vertex_cover passes); the matching consists of existing,
+   pairwise vertex-disjoint edges and is maximum; the cover lists are in range, strictly increasing, touch every
+   edge, and their total number equals the maximum matching size (Koenig), hence the cover is minimum. *)
+Theorem C18_mvc_total : forall n_u n_v edges,
+  (forall e, In e edges -> 0 <= fst e < Z.of_nat n_u /\ 0 <= snd e < Z.of_nat n_v) ->
+  let g := mk_bg n_u n_v edges in
+  exists m uc vc, hopcroft_karp g = Some m /\ min_vertex_cover g = Some (uc, vc) /\
+    Matching g m /\ Cover g uc vc /\ cover_wf g uc vc /\ (length uc + length vc = length m)%nat /\
+    (forall m', Matching g m' -> (length m' <= length m)%nat) /\
+    (forall uc' vc', Cover g uc' vc' -> (length uc + length vc <= length uc' + length vc')%nat).
+Proof. exact mvc_total_mk. Qed.
+Print Assumptions C18_mvc_total.
+
+(* the same for any graph record with consistent adjacency tables *)
+Theorem C18_mvc_total_gen : forall g,
+  (forall u v, In v (adj_u g u) -> 0 <= v < Z.of_nat (nv g)) ->
+  (forall u v, 0 <= u < Z.of_nat (nu g) -> In v (adj_u g u) -> In u (adj_v g v)) ->
+  exists m uc vc, hopcroft_karp g = Some m /\ min_vertex_cover g = Some (uc, vc) /\
+    Matching g m /\ Cover g uc vc /\ cover_wf g uc vc /\ (length uc + length vc = length m)%nat /\
+    (forall m', Matching g m' -> (length m' <= length m)%nat) /\
+    (forall uc' vc', Cover g uc' vc' -> (length uc + length vc <= length uc' + length vc')%nat).
+Proof. exact (fun g H1 H2 => mvc_total g (conj H1 H2)). Qed.
+Print Assumptions C18_mvc_total_gen.
+
+(* Nothing of the property statement is left unproved about the model.  Outside the model (and therefore outside
+   these theorems): the Python interpreter's recursion limit.  The model's recursion depth of
+   __add_augmenting_path and _explore_alternating_paths is at most num_u + 2 (this is what "fuel nu+2 suffices"
+   means), but CPython stops at sys.getrecursionlimit() (default 1000): graphs with an alternating path through more
+   than about 1000 U-vertices make the real routines raise RecursionError.  See harness/props/c18.py ASSUMPTIONS. *)
+
+(* Non-vacuity: the model's own output on a concrete graph (duplicate edge included) meets the hypotheses
+   of the theorems above and the routine returns. *)
 Example C18_nonvacuous :
   let g := mk_bg 3 3 [(0,0);(0,1);(1,0);(2,2);(2,1)] in
   match hopcroft_karp g, min_vertex_cover g with
   | Some m, Some (uc, vc) => is_matching g m && is_cover g (uc, vc) && Nat.eqb (length uc + length vc) (length m) && Nat.eqb (length m) 3 = true
   | _, _ => False end.
 Proof. vm_compute. reflexivity. Qed.
+
+Example C18_nonvacuous_hyps :
+  let edges := [(0,0);(0,1);(1,0);(0,1);(2,2);(2,1);(3,1)] in
+  (forall e, In e edges -> 0 <= fst e < Z.of_nat 4 /\ 0 <= snd e < Z.of_nat 3) /\
+  min_vertex_cover (mk_bg 4 3 edges) = Some ([2], [0; 1]) /\
+  hopcroft_karp (mk_bg 4 3 edges) = Some [(0,0);(2,2);(3,1)].
+Proof.
+  split; [|split; vm_compute; reflexivity].
+  intros e He. simpl in He. repeat (destruct He as [<-|He]; [cbn; lia|]). contradiction.
+Qed.
+
+(* graphs with no edges satisfy the hypotheses trivially; the routines return the empty matching and cover *)
+Example C18_nonvacuous_empty :
+  (forall e, In e (@nil (Z * Z)) -> 0 <= fst e < Z.of_nat 2 /\ 0 <= snd e < Z.of_nat 3) /\
+  hopcroft_karp (mk_bg 2 3 []) = Some [] /\ min_vertex_cover (mk_bg 2 3 []) = Some ([], []).
+Proof. split; [intros e []|split; vm_compute; reflexivity]. Qed.
